@@ -62,6 +62,10 @@ func changeRequestToTarget(req *http.Request, httpsDefault bool) error {
 	}
 
 	targetUrl.Path = req.URL.Path
+	// Keep the client's spelling of the request-target: without RawPath an encoded slash ("%2F") is sent as a
+	// plain one, and without ForceQuery a bare "?" is dropped.
+	targetUrl.RawPath = req.URL.RawPath
+	targetUrl.ForceQuery = req.URL.ForceQuery
 	targetUrl.RawQuery = req.URL.RawQuery
 	targetUrl.Fragment = req.URL.Fragment
 	req.URL = targetUrl
